@@ -42,10 +42,19 @@ type termCtx struct {
 	varset map[string]*Term
 	ufs    map[string]string      // uf name -> declaration
 	bounds map[string][2]*big.Int // facts learned from the path condition: var -> [lo,hi] (nil = unbounded)
+	tbounds map[int][2]*big.Int   // same for arbitrary terms (by id)
+	epoch   int
+	rcache  map[int]rangeEntry
+}
+
+type rangeEntry struct {
+	epoch  int
+	lo, hi *big.Int
+	ok     bool
 }
 
 func newTermCtx() *termCtx {
-	return &termCtx{tab: map[string]*Term{}, varset: map[string]*Term{}, ufs: map[string]string{}, bounds: map[string][2]*big.Int{}}
+	return &termCtx{tab: map[string]*Term{}, varset: map[string]*Term{}, ufs: map[string]string{}, bounds: map[string][2]*big.Int{}, tbounds: map[int][2]*big.Int{}, rcache: map[int]rangeEntry{}}
 }
 
 func (c *termCtx) mk(op string, sort Sort, name string, k *big.Int, args ...*Term) *Term {
@@ -216,9 +225,34 @@ func (c *termCtx) Mod(a, b *Term) *Term {
 
 // rangeOf computes a cheap syntactic interval for a (no path-condition knowledge).
 func (c *termCtx) rangeOf(a *Term, depth int) (lo, hi *big.Int, ok bool) {
-	if depth > 6 {
+	if a.op == "const" {
+		return a.c, a.c, true
+	}
+	if e, hit := c.rcache[a.id]; hit && e.epoch == c.epoch {
+		return e.lo, e.hi, e.ok
+	}
+	if depth > 60 {
 		return nil, nil, false
 	}
+	lo, hi, ok = c.rangeOf1(a, depth)
+	// intersect with bounds learned for this very term
+	if tb, has := c.tbounds[a.id]; has {
+		if tb[0] != nil && tb[1] != nil && !ok {
+			lo, hi, ok = tb[0], tb[1], true
+		} else if ok {
+			if tb[0] != nil && tb[0].Cmp(lo) > 0 {
+				lo = tb[0]
+			}
+			if tb[1] != nil && tb[1].Cmp(hi) < 0 {
+				hi = tb[1]
+			}
+		}
+	}
+	c.rcache[a.id] = rangeEntry{c.epoch, lo, hi, ok}
+	return
+}
+
+func (c *termCtx) rangeOf1(a *Term, depth int) (lo, hi *big.Int, ok bool) {
 	switch a.op {
 	case "const":
 		return a.c, a.c, true
@@ -925,6 +959,34 @@ func (c *termCtx) learn(f *Term) {
 
 // learnLe: a <= b (or a < b when strict).
 func (c *termCtx) learnLe(a, b *Term, strict bool) {
+	c.epoch++
+	if a.sort == SInt && a.op != "var" && a.op != "const" {
+		if _, hb, ok := c.rangeOf(b, 0); ok {
+			hi := hb
+			if strict {
+				hi = new(big.Int).Sub(hb, bigOne)
+			}
+			cur := c.tbounds[a.id]
+			if cur[1] == nil || hi.Cmp(cur[1]) < 0 {
+				cur[1] = hi
+				c.tbounds[a.id] = cur
+			}
+		}
+	}
+	if b.sort == SInt && b.op != "var" && b.op != "const" {
+		if la, _, ok := c.rangeOf(a, 0); ok {
+			lo := la
+			if strict {
+				lo = new(big.Int).Add(la, bigOne)
+			}
+			cur := c.tbounds[b.id]
+			if cur[0] == nil || lo.Cmp(cur[0]) > 0 {
+				cur[0] = lo
+				c.tbounds[b.id] = cur
+			}
+		}
+	}
+	c.epoch++
 	if a.op == "var" && a.sort == SInt {
 		if _, hb, ok := c.rangeOf(b, 0); ok {
 			hi := hb
